@@ -10,6 +10,7 @@ from trie.fog import HexaryTrieFog, TrieFrontierCache
 from trie.smt import SparseMerkleProof, SparseMerkleTree, calc_root
 from trie.typing import Nibbles
 
+from .c11 import _prefixes as fog_prefixes
 from ..hexcommon import histories
 from ..faults import HookDB
 from ..hexrun import norm_counts, play, run_history
@@ -470,7 +471,7 @@ def _run_fog(case, info):
         fog = impl("explore", fog.explore, (1,), [(0,), (7,)])
     if n >= 2:
         fog = impl("mark_all_complete", fog.mark_all_complete, [(15,)])
-    model = {tuple(int(x) for x in p) for p in fog._unexplored_prefixes}
+    model = fog_prefixes(fog)
     before = (set(model), impl("serialize", fog.serialize))
     if entry == "deserialize.prefix":
         blob = {"hp-flag-2": b"HexaryTrieFog:[b' \\x12']", "hp-flag-3": b"HexaryTrieFog:[b'1']",
@@ -500,10 +501,10 @@ def _run_fog(case, info):
     }
     r = impl(entry, calls[entry], allowed=E)
     _refused(entry, kind, r, FOG_ENTRIES[entry][1])
-    after = ({tuple(int(x) for x in p) for p in fog._unexplored_prefixes}, impl("serialize", fog.serialize))
+    after = (fog_prefixes(fog), impl("serialize", fog.serialize))
     expect_eq("refusal-changes-nothing", after, before, f"fog after refused {entry}({kind})")
     f2 = impl("explore", fog.explore, (2, 3), [(4,)])
-    expect_eq("continuation-agrees-with-model", {tuple(int(x) for x in p) for p in f2._unexplored_prefixes},
+    expect_eq("continuation-agrees-with-model", fog_prefixes(f2),
               (model - {(2, 3)}) | {(2, 3, 4)}, "fog after continuing")
     return True
 
